@@ -3,6 +3,8 @@
 #[cfg(feature = "internals")]
 mod castfmt;
 #[cfg(feature = "internals")]
+mod casttable;
+#[cfg(feature = "internals")]
 mod collection;
 #[cfg(feature = "internals")]
 mod csvdec;
@@ -24,6 +26,8 @@ fn main() {
     let rest = &args[2..];
     let rc = match args[1].as_str() {
         "sql" => sqlrun::main(rest),
+        #[cfg(feature = "internals")]
+        "casttable" => casttable::main(rest),
         #[cfg(feature = "internals")]
         "tok" => tok::main(rest),
         #[cfg(feature = "internals")]
